@@ -451,6 +451,37 @@ def run_reject_history(impl, hist, out):
         w.teardown()
 
 
+def run_reopen(impl, kind, out):
+    """An earlier session of this server has come and gone - its disconnect event handled by a legacy one-argument handler, by
+    a handler that raised, or by an ordinary one - and the next open is answered like the first."""
+    extra = {'legacy_disconnect': True} if kind == 'legacy' else {}
+    beh = base.Scripted(disconnect=[('raise_type',)]) if kind == 'raise_type' else base.Scripted(disconnect=[('raise', 'x')]) if kind == 'legacy_raise' else None
+    if kind == 'legacy_raise':
+        extra = {'legacy_disconnect': True}
+    w = peer.make_world(impl, behaviour=beh, **extra)
+    cell = {'reopen_after': kind}
+    try:
+        for how in ('post_close', 'api'):
+            s1 = peer.sid_of(peer.open_polling(w))
+            if s1 is None:
+                out.append(_viol(impl, 'repeat_open_failed', 'reopen=' + kind, 'an open after an earlier session had ended (%s) was not answered '
+                                 'with an OPEN packet' % how, cell, 'polling'))
+                return 'bad'
+            g = peer.poll(w, s1)
+            if how == 'post_close':
+                peer.post(w, s1, '1')
+            else:
+                w.call('disconnect', s1)
+                w.run()
+        r = peer.open_polling(w)
+        d = peer.open_data(r)
+        if d is None or r.status != 200:
+            out.append(_viol(impl, 'repeat_open_failed', 'reopen=' + kind, 'the open after two ended sessions was answered %r' % (r.status,), cell, 'polling'))
+        return 'reopen'
+    finally:
+        w.teardown()
+
+
 # ------------------------------------------------------------------ overlapping opens (schedule search)
 
 VERDICTS = {'accept': [], 'false': [('return', False)], 'text': [('return', 'no')], 'raise': [('raise', 'boom')]}
@@ -568,6 +599,8 @@ def _work(chunk):
         try:
             if via == 'reject_history':
                 k = run_reject_history(impl, cell, out)
+            elif via == 'reopen':
+                k = run_reopen(impl, cell, out)
             else:
                 k = run_cell(impl, via, cell, out)
         except report.Livelock as e:
@@ -585,6 +618,7 @@ def run(ctx):
             if not (via == 'websocket' and c['jsonp'])]
     hs = reject_histories(not ctx.quick)
     jobs += [(impl, 'reject_history', h) for h in hs for impl in ('sync', 'async')]
+    jobs += [(impl, 'reopen', k) for k in ('plain', 'legacy', 'legacy_raise', 'raise_type') for impl in ('sync', 'async')]
     res = parallel.pmap_chunks(_work, parallel.split(jobs, ctx.workers * 4), ctx.workers, ctx.seed, maxtasks=8)
     kinds = {}
     n = 0
@@ -637,7 +671,12 @@ def replay(ctx, payload):
             print('REPLAY VIOLATION:', v)
         return 1 if ex.violations else 0
     out = []
-    k = run_cell(r['impl'], r['via'], r['cell'], out)
+    if 'reopen_after' in r['cell']:
+        k = run_reopen(r['impl'], r['cell']['reopen_after'], out)
+    elif 'history' in r['cell']:
+        k = run_reject_history(r['impl'], [tuple(x) for x in r['cell']['history']], out)
+    else:
+        k = run_cell(r['impl'], r['via'], r['cell'], out)
     print('outcome:', k)
     for v in out:
         print('REPLAY VIOLATION:', v.text)
